@@ -41,6 +41,15 @@ fn real_tqc(w: &mut World, q: &ATqc) -> (v2::TimeoutQC, ATqc) {
     )
 }
 
+/// leader eligibility of the committee of a world: irrelevant for certificates; odd world seeds make only some eligible
+fn leaders_for(wseed: u64, n: usize) -> Vec<bool> {
+    let mut l: Vec<bool> = (0..n).map(|i| wseed % 2 == 0 || (wseed >> (1 + i % 16)) & 1 == 1).collect();
+    if !l.iter().any(|x| *x) {
+        l[(wseed as usize / 2) % n] = true;
+    }
+    l
+}
+
 fn sel() -> validator::LeaderSelection {
     validator::LeaderSelection { frequency: 1, mode: validator::LeaderSelectionMode::RoundRobin }
 }
@@ -64,7 +73,7 @@ impl Prop for C02 {
             let n = weights.len();
             let first = rng.gen_range(0..3u64);
             let wseed = rng.gen_range(0..1000u64);
-            let mut w = World::new(wseed, &weights, &vec![true; n], sel(), first);
+            let mut w = World::new(wseed, &weights, &leaders_for(wseed, n), sel(), first);
             ops.push(json!({"op":"init","reset":true,"weights":weights,"first":first,"wseed":wseed,"me":0,"max_payload":1000,"pure":true}));
             for _ in 0..per {
                 // contents: high vote ∈ {none, A, B, A'(same number other hash)}, high certificate ∈ {none, q1, q2, q3}
@@ -110,7 +119,7 @@ impl Prop for C02 {
         let kind = op["op"].as_str().unwrap_or("");
         if kind == "init" && op.get("pure").is_some() {
             let weights: Vec<u64> = serde_json::from_value(op["weights"].clone()).unwrap();
-            self.w = Some(World::new(op["wseed"].as_u64().unwrap_or(0), &weights, &vec![true; weights.len()], sel(), op["first"].as_u64().unwrap_or(0)));
+            self.w = Some(World::new(op["wseed"].as_u64().unwrap_or(0), &weights, &leaders_for(op["wseed"].as_u64().unwrap_or(0), weights.len()), sel(), op["first"].as_u64().unwrap_or(0)));
             out.count("op=init(pure)");
             // same observation shape as the replica init (the model driver prints class + snap; only class is compared here)
             return json!({"class":"init"});
